@@ -226,6 +226,8 @@ static int has_dotdot (const char *p) {
   }
   return 0;
 }
+/* a path that leaves the evaluation root is judged from the log; it is never executed on the host */
+static int escapes_root (const char *p) { return p[0] == '/' || has_dotdot (p); }
 /* what the master's answer means as a path: one leading '/' stripped, empty = mudlib root */
 static void norm_approved (const char *in, char *out, size_t n) {
   if (in[0] == '/') in++;
@@ -291,8 +293,12 @@ static void call_T (const char *fn, const char *a, const char *b) {
   svalue_t *r = hx_apply (T, fn, 2);
   fs_active = 0;
   command_giver = 0;
+  /* results of stat()/get_dir(,-1) carry real modification times: only the shape goes into the observation log */
   if (!r) vx_obs ("  %s -> error %.200s", fn, hx_last_error);
-  else vx_obs ("  %s -> %.200s", fn, hx_canon_s (r));
+  else if (r->type == T_NUMBER) vx_obs ("  %s -> %lld", fn, (long long) r->u.number);
+  else if (r->type == T_ARRAY) vx_obs ("  %s -> array of %d", fn, r->u.arr->size);
+  else if (r->type == T_STRING) vx_obs ("  %s -> string of %d", fn, (int) strlen (r->u.string));
+  else vx_obs ("  %s -> type %d", fn, r->type);
 }
 static void compile_text (const char *name, const char *text) {
   command_giver = U;
@@ -754,6 +760,7 @@ int main (int argc, char **argv) {
   }
   push_constant_string ("log_fs"); push_number (1); safe_apply_master_ob ("set_policy", 2);
   fs_seq_hook = mlog_len;
+  fs_path_guard = escapes_root;
   fs_sites_share ();
 
   long total;
